@@ -103,6 +103,7 @@ def run(tier: str) -> Run:
         for where, seen_ in sides.items():
             if (True, 'return') in seen_ and (False, 'return') in seen_:
                 breakers.append({'kind': 'result-selected-by-the-size-of-the-operand', 'where': where})
+        for o in binned:
             for e in events(o, 'binned-unsafe-access'):
                 unsafe.append({'where': e.where, **e.detail})
         for o in dense + binned:
